@@ -376,6 +376,31 @@ def check(ctx, rid):
         g = v.guards(bb) if bb is not None else []
         ob("Free:fails-when-the-new-length-exceeds-the-length", ("Le", "$2", LEN) in g, v.f, "truncate under %s" % g)
 
+    # ---- success only under the bound (no fast path around the checks) ------------
+    def ok_rows_guarded(path, key, guard, n_err):
+        f_ = prog.fn(path)
+        if f_ is None:
+            return
+        v_ = View(prog, f_)
+        rows = M.return_table(prog, f_)
+        oks = [(bb_, val) for bb_, val, _ in rows if val.startswith("Result::Ok{")]
+        errs = [(bb_, val) for bb_, val, _ in rows if not val.startswith("Result::Ok{")]
+        good = len(oks) == 1 and (guard is None or guard in v_.guards(oks[0][0])) and len(errs) == n_err
+        ob(key, good, f_, "%d Ok return(s) under %s, %d failing return(s); expected one Ok under %s and %d failing returns" % (len(oks), [v_.guards(b_) for b_, _ in oks], len(errs), guard, n_err))
+    ok_rows_guarded(Mm + "store_range", "StoreRange:succeeds-only-within-bounds", ("Le", "$2 + slice::len($3)", LEN), 3)
+    ok_rows_guarded(Mm + "load_range", "LoadRange:succeeds-only-within-bounds", ("Le", "$2 + $3", LEN), 4)
+    ok_rows_guarded(Mm + "free", "Free:succeeds-only-within-bounds", ("Le", "$2", LEN), 2)
+    ok_rows_guarded(Mm + "alloc", "Alloc:succeeds-only-within-the-limit", ("Le", "$2 + %s" % LEN, "10240"), 3)
+    ok_rows_guarded(Mm + "store", "MemStore:succeeds-only-for-an-existing-word", None, 2)
+    ok_rows_guarded(Mm + "load", "MemLoad:succeeds-only-for-an-existing-word", None, 2)
+    for ty, lim in (("essential_vm::stack::Stack", "4096"), ("essential_vm::memory::Memory", "10240")):
+        ok_rows_guarded("<%s as std::convert::TryFrom<std::vec::Vec<i64>>>::try_from" % ty, "%s:from-words-accepts-exactly-len<=limit" % ty.split("::")[-1], ("Le", LEN, lim), 1)
+        f_ = prog.fn("<%s as std::convert::TryFrom<std::vec::Vec<i64>>>::try_from" % ty)
+        if f_ is not None:
+            v_ = View(prog, f_)
+            errs = [bb_ for bb_, val, _ in M.return_table(prog, f_) if val.startswith("Result::Err{")]
+            ob("%s:from-words-rejects-exactly-len>limit" % ty.split("::")[-1], len(errs) == 1 and ("Lt", lim, LEN) in v_.guards(errs[0]), f_, "Err under %s" % [v_.guards(b_) for b_ in errs])
+
     # ---- wiring in step_op_memory -----------------------------------------------
     som = prog.fn("essential_vm::sync::step_op_memory")
     if ctx.anchor(rid, "fn step_op_memory", som):
@@ -416,7 +441,7 @@ def check(ctx, rid):
         pops = v.calls(r"stack::Stack::pop$")
         ob("StoreRange:index-popped-before-the-words", len(plw) == 1 and any(v.dominates(pb_, plw[0][0]) for pb_, _ in pops), som,
            "a pop dominates pop_len_words")
-    ctx.floor(rid, "addressed-position obligations", n[0], 62)
+    ctx.floor(rid, "addressed-position obligations", n[0], 72)
 
 
 def _alts(t):
@@ -435,3 +460,19 @@ def _through_to_vec(t):
     if t.kind == "call" and re.search(r"slice::<impl \[T\]>::to_vec$|borrow::ToOwned>::to_owned$|convert::(Into|From)<.*>>::(into|from)$", t.a) and t.sub:
         return t.sub[0]
     return t
+
+
+def from_words_tables(ctx, rid):
+    """Stack / Memory built from a word vector (the checker concatenates parents' results this way): accepted exactly when len <= limit."""
+    prog = ctx.prog
+    for ty, lim in (("essential_vm::stack::Stack", "4096"), ("essential_vm::memory::Memory", "10240")):
+        f_ = prog.fn("<%s as std::convert::TryFrom<std::vec::Vec<i64>>>::try_from" % ty)
+        if not ctx.anchor(rid, "TryFrom<Vec<Word>> for %s" % ty.split("::")[-1], f_):
+            continue
+        ctx.saw(f_)
+        v_ = View(prog, f_)
+        rows = M.return_table(prog, f_)
+        oks = [bb_ for bb_, val, _ in rows if val.startswith("Result::Ok{")]
+        errs = [bb_ for bb_, val, _ in rows if val.startswith("Result::Err{")]
+        good = len(rows) == 2 and len(oks) == 1 and len(errs) == 1 and ("Le", "Vec::len($1)", lim) in v_.guards(oks[0]) and ("Lt", lim, "Vec::len($1)") in v_.guards(errs[0])
+        ctx.ob(rid, "%s-from-words:accepted-iff-len<=%s" % (ty.split("::")[-1], lim), good, f_.loc(0), "Ok under %s; Err under %s" % ([v_.guards(b_) for b_ in oks], [v_.guards(b_) for b_ in errs]), f_)
